@@ -31,10 +31,16 @@ pub const ALPHABET: &[char] = &[
     // non-ASCII characters that the general Unicode predicates (is_numeric, is_whitespace,
     // is_alphabetic, is_control) put in the same class as an ASCII character of the grammar
     '\u{b2}', '\u{663}', '\u{2167}', '\u{a0}', '\u{2003}', '\u{2028}', '\u{ff1b}', '\u{ff3b}',
+    // ... and characters whose low byte is a byte of the grammar (a recogniser that narrows a
+    // code point to u8 confuses them): \ BEL ESC ST CAN ;
+    '\u{15c}', '\u{107}', '\u{11b}', '\u{19c}', '\u{118}', '\u{13b}',
 ];
 
+/// characters beyond U+00FF whose low byte is a byte of the grammar: \ \ BEL BEL ST ESC [ ] CAN ;
+pub const ALIASES: [char; 10] = ['\u{15c}', '\u{305c}', '\u{107}', '\u{3007}', '\u{19c}', '\u{11b}', '\u{15b}', '\u{15d}', '\u{118}', '\u{13b}'];
+
 /// reduced alphabet used inside OSC strings (payload depth is capped separately)
-pub const OSC_ALPHABET: &[char] = &[';', 'a', '\\', '\u{1b}', '\u{7}', '\u{9c}', '\u{18}', '\u{a}', '0', 'é', ']', ' ', '\u{9b}'];
+pub const OSC_ALPHABET: &[char] = &[';', 'a', '\\', '\u{1b}', '\u{7}', '\u{9c}', '\u{18}', '\u{a}', '0', 'é', ']', ' ', '\u{9b}', '\u{15c}', '\u{107}'];
 
 fn c03_run(cx: &mut Ctx, s: &str, utf8: bool, kind: &str) {
     let full = format!("{}Z", s);
@@ -249,7 +255,7 @@ impl Check for C03Check {
         "C03"
     }
     fn rule(&self) -> String {
-        "event-log conformance: the calls received by a recording ParserListener attached to memterm::parser::Parser (its *_dispatch default methods are inside the observed system) vs an independently written explicit-state recogniser, for input + sentinel 'Z', in UTF-8 and 8-bit mode. Enumerated: all strings over an 81-character class alphabet (13 inside OSC strings) whose proper prefixes keep the reference outside ground, up to length L; plus two-sequence concatenations, random long strings and digit runs of 1..40 digits for every final. distinct = (deduplicated reference state path, mode, number of expected events, workload); non-trivial = the reference left the ground state".into()
+        "event-log conformance: the calls received by a recording ParserListener attached to memterm::parser::Parser (its *_dispatch default methods are inside the observed system) vs an independently written explicit-state recogniser, for input + sentinel 'Z', in UTF-8 and 8-bit mode. Enumerated: all strings over an 87-character class alphabet (15 inside OSC strings) whose proper prefixes keep the reference outside ground, up to length L; plus two-sequence concatenations, random long strings and digit runs of 1..40 digits for every final. distinct = (deduplicated reference state path, mode, number of expected events, workload); non-trivial = the reference left the ground state".into()
     }
     fn assumptions(&self) -> Vec<String> {
         let mut a = assumptions();
@@ -711,6 +717,13 @@ impl Check for C19Check {
             for b in b' '..=b'~' {
                 v.push((b as char).to_string());
             }
+            // characters whose code point, truncated to a byte, equals a byte of the grammar
+            // (\ BEL ST ESC [ ] CAN ;): neither bare nor as the partner of an ESC may they end or
+            // alter the string
+            for x in ALIASES {
+                v.push(format!("a{}b", x));
+                v.push(format!("ab\x1b{}cd", x));
+            }
             v
         };
         let mut idx = 0u64;
@@ -748,7 +761,7 @@ impl Check for C19Check {
             }
         }
         if complete {
-            cx.stats.exhaustive_parts.insert("2 introducers x 19 codes x 3 terminators x 108 fixed payloads (every printable ASCII singleton and 13 special ones), every 2-way cut for codes 0/1/2".into());
+            cx.stats.exhaustive_parts.insert("2 introducers x 19 codes x 3 terminators x 130 fixed payloads (every printable ASCII singleton, 15 special ones, 10 byte-aliases of grammar characters bare and after ESC), every 2-way cut for codes 0/1/2".into());
         }
         // all ordered pairs (and some triples) of OSC strings on one parser
         if cx.begin_group("osc pairs") {
